@@ -393,6 +393,11 @@ class Worker:
                             # process to exit: that is not a task failure.
                             raise
                         result = (False, ExceptionInfo())
+                    else:
+                        if common._should_have_exited[0]:
+                            # the task swallowed the exit request of a
+                            # termination signal handler and returned.
+                            raise SystemExit(EX_FAILURE)
                     try:
                         put((READY, (job, i, result, inqW_fd)))
                     except Exception as exc:
